@@ -1444,7 +1444,9 @@ pub fn header(policy: &Policy) -> Value {
            "PartSize": 2, "FaultMaxAge": policy.fault_max_age, "FaultCutoff": policy.fault_declaration_cutoff,
            "MinPower": policy.minimum_consensus_power.to_i64().unwrap(), "MinMiners": 4,
            "MinLife": policy.min_sector_expiration, "MaxLife": policy.max_sector_expiration_extension,
-           "AddrSectorsMax": policy.addressed_sectors_max, "AddrPartsMax": policy.addressed_partitions_max})
+           "AddrSectorsMax": policy.addressed_sectors_max, "AddrPartsMax": policy.addressed_partitions_max,
+           // the pre-commit path: how long a pre-commitment (of the seal proof the driver uses) may wait for its proof
+           "MaxPC": fil_actor_miner::max_prove_commit_duration(policy, SEAL).unwrap_or(0), "ChalDelay": policy.pre_commit_challenge_delay})
 }
 
 pub fn main(args: &[String]) {
